@@ -20,6 +20,9 @@ def x_jobs():
             q.core, q.tier = True, "q"
             q.bounds = q.bounds + " — volumes fixed to 1, 2, 3, .. (price * volume stays linear)"
             j.append(q)
+    for down in (0, 1):
+        j.append(X("c10_awesome_long", {"pre": 600, "t": 1, "down": down}, "AwesomeOscillator{SMA(3), SMA(2), left 1, right 1, conseq_peaks 255} (accepted): 600 concrete candles whose oscillator value is a %s saw-tooth that never crosses zero (a confirmed peak every second bar: the u8 peak counter passes 255), then 1 symbolic valid candle: no panic event (dev-profile overflow checks), result shape, and the twin-peaks signal keeps firing after 255 peaks" % ("negative" if down else "positive"),
+                   cost=5, encodes=["src/indicators/awesome_oscillator.rs: AwesomeOscillator::init, AwesomeOscillatorInstance::next", "src/methods/reversal.rs"]))
     for m in ("sma", "wma", "swma", "hma", "linreg", "trima", "integral", "derivative", "momentum", "stdev", "linvol", "vwma", "adi"):
         j.append(X("c02_" + m, {"n": 254, "t": 257} if m not in ("hma", "trima", "stdev", "vwma", "adi") else {"n": 16, "t": 19}, "%s at its largest covered length: no panic event on any feasible path of a symbolic stream (and the output equals the definition)" % m, cost=30,
                    encodes=["src/methods/*.rs: %s" % m, "src/core/window.rs"]))
